@@ -48,6 +48,20 @@ CLAIMED = {
    note="Go's randomised map iteration (EAP-AKA' attributes) has no seam; repeat-encoding samples it and can never raise a false alarm."),
 }
 
+# what later mutation waves added to each check (DESIGN.md §10, seventh wave)
+ADDENDA = {
+ "C01": " Also: deployment-shaped messages (3GPP NAIs, DER certificates, EAP-5G), the header parsed from a receive buffer that is reused before the private copy is unprotected, another SA's keys tried on the same buffer first, and the identical datagram delivered again after the caller edited the decoded message.",
+ "C02": " Also: a cipher.Block spy inside the stock AES-CBC object (below the IKECrypto interface), octets prepended in front of the genuine message, and corruption that CRC-32 / additive / xor / 16-bit-word checksums do not notice delivered right after the genuine datagram.",
+ "C06": " Also: SAs keyed again on a copy of the old key object (rekey) and receivers that try another SA's keys on the same buffer first.",
+ "C07": " Also: raw keys zeroised before the first use of the ready-made objects, one SA object keyed again from the caller's refilled nonce/secret buffers with the same SPIs, IKE proposals carrying an 8-octet SPI.",
+ "C08": " Also: one nonce buffer refilled in place across derivations, application use of the exported Prf_d between derivations, and soak histories of 2^16 derivations on one IKE SA.",
+ "C09": " Also: CalculateDiffieHellmanMaterials against a known peer exponent with the caller appending to the returned values, and soak runs of more than 2^20 operations on one process-wide group object.",
+ "C10": " Also: junk appended into the spare capacity of earlier ciphertexts before later ones are used.",
+ "C17": " Also: soak steps (2^16 consecutive forgeries, retransmissions or protect calls on one key object) and checksum-preserving corruption after an accepted genuine datagram.",
+ "C18": " The scheduler never parks a task inside a critical section of the library (Lock/Unlock/Do tracked by the instrumentation); a watchdog hit in the serialized phase counts as a hang only if it persists without any parking.",
+ "C20": " Also: deployment-shaped data (DER-framed certificates of realistic size, mixed-case NAIs).",
+}
+
 NA_REASON = "pure function of its input: no schedule, clock, fault, history on a stateful object, random outcome or second party for a simulator to decide (DESIGN.md §4)"
 PENDING = "claimed in DESIGN.md; its simulation check is not built yet, so nothing is claimed for it in this commit"
 
@@ -79,7 +93,7 @@ def main():
             "evidence_file": "/verif/evidence/%s.json" % pid,
             "replay_cmd_template": "./check.sh replay {path}",
             "engine": "ikesim",
-            "level_claimed": {"category": c["level"], "text": c["text"], "design_ref": c["ref"]},
+            "level_claimed": {"category": c["level"], "text": c["text"] + ADDENDA.get(pid, ""), "design_ref": c["ref"]},
             "level_note": c["note"],
             "technique": c["technique"],
         })
